@@ -1,4 +1,5 @@
 import RecipeGrid.Model.Site
+import RecipeGrid.Model.Links
 import RecipeGrid.Model.Sexp
 /-! Line-protocol requests served by the site model. -/
 namespace RG
@@ -32,6 +33,17 @@ def dispatchSite : Sexp → Option Sexp
     match a.asStr?, b.asStr? with
     | some a, some b => some (Sexp.ofStr (resolveRef a b))
     | _, _ => some (Sexp.tag "bad-request" [Sexp.atom "args"])
+  | .list [.atom "rewrite", scheme, netloc, path, canon, root, isFile, lookup, fromPath, assets] =>
+    match scheme.asStr?, netloc.asStr?, path.asStr?, Sexp.asList? Sexp.asStr? canon, Sexp.asList? Sexp.asStr? root, isFile.asBool?,
+          Sexp.asOpt? (fun x => match x with | .list [.atom "lk", p, sc] => do pure ((← p.asStr?), (← sc.asBool?)) | _ => none) lookup,
+          fromPath.asStr?, assets.asStr? with
+    | some sch, some nl, some pa, some ca, some ro, some f, some lk, some fp, some ad =>
+      some (rewriteDecision sch nl pa ca ro f lk fp ad).toSexp
+    | _, _, _, _, _, _, _, _, _ => some (Sexp.tag "bad-request" [Sexp.atom "args"])
+  | .list [.atom "embed", scheme, netloc, path, canon, root, isFile] =>
+    match scheme.asStr?, netloc.asStr?, path.asStr?, Sexp.asList? Sexp.asStr? canon, Sexp.asList? Sexp.asStr? root, isFile.asBool? with
+    | some sch, some nl, some pa, some ca, some ro, some f => some (embedDecision sch nl pa ca ro f).toSexp
+    | _, _, _, _, _, _ => some (Sexp.tag "bad-request" [Sexp.atom "args"])
   | .list [.atom "dirtitle", a] => (a.asStr?).map fun a => Sexp.ofStr (dirnameToTitle a)
   | _ => none
 
